@@ -310,15 +310,67 @@ def check_mirrors(run, F):
         if not fa or not fb:
             run.ob('SIB.ops', 'tea_time::impl_ops', '%s ~ %s' % (a, b), False, '', 'impl missing')
             continue
-        # flip every + / - of the subtraction body, then both must agree
-        sa = sib.canon_src(fa.hir)
-        sb = sib.canon_src(fb.hir)
-        flipped = re.sub(r' ([+-]) ', lambda m: ' + ' if m.group(1) == '-' else ' - ', sb)
-        flipped = flipped.replace('str:not support sub', 'str:not support add')
-        # `(-x.months)` is a unary minus: unaffected by the regexp (no surrounding spaces)
-        d = sib.first_diff(sa, flipped)
+        # x - d  ==  x + (-d): substitute -rhs.months / -rhs.inner into the addition's decision
+        # table and compare it, row by row, with the subtraction's (values as polynomials)
+        from algebra import parse_poly
+        ta, tb = N.tbl(fa), N.tbl(fb)
+
+        def neg_rhs(x):
+            x = x.replace('rhs.inner.num_nanoseconds()', 'NEGN').replace('rhs.inner', 'NEGI')
+            x = x.replace('rhs.months', 'NEGM')
+            x = x.replace('Months::new(-NEGM)', 'Months::new(rhs.months)') \
+                 .replace('Months::new(NEGM)', 'Months::new(-rhs.months)')
+            x = x.replace('(0 < NEGM)', '(rhs.months < 0)').replace('(NEGM < 0)', '(0 < rhs.months)')
+            x = x.replace('NEGM', 'rhs.months') if re.search(r'\(0 (==|!=) NEGM\)', x) else x
+            x = x.replace('VALID(NEGN)', 'VALID(rhs.inner.num_nanoseconds())')
+            return x
+        defs = {'NEGN': '(0 - rhs.inner.num_nanoseconds())', 'NEGI': '(0 - rhs.inner)',
+                'NEGM': '(0 - rhs.months)'}
+
+        def value(leaf, d):
+            ms = re.fullmatch(r'[\w:?]*\{(.*)\}', leaf)
+            if ms:
+                parts, depth, cur = [], 0, ''
+                for ch in ms.group(1):
+                    if ch in '([{':
+                        depth += 1
+                    elif ch in ')]}':
+                        depth -= 1
+                    if ch == ',' and depth == 0:
+                        parts.append(cur)
+                        cur = ''
+                    else:
+                        cur += ch
+                parts.append(cur)
+                return tuple(sorted((p_.split(':', 1)[0].strip(), parse_poly(p_.split(':', 1)[1], d))
+                                    for p_ in parts if ':' in p_))
+            m_ = re.fullmatch(r'[\w:]+\((.*)\)', leaf)
+            inner = m_.group(1) if m_ and not leaf.endswith('nat()') else leaf
+            return parse_poly(inner, d)
+        rows_a = {}
+        for cs, l, ef in ta:
+            rows_a[frozenset(neg_rhs(c) for c in cs)] = ('PANIC' if l == 'PANIC' else value(neg_rhs(l), defs))
+        rows_b = {frozenset(cs): ('PANIC' if l == 'PANIC' else value(l, {})) for cs, l, ef in tb}
+        d = None
+        if set(rows_a) != set(rows_b):
+            d = 'path conditions differ: %s  vs  %s' % (sorted(map(sorted, set(rows_a) - set(rows_b)))[:1],
+                                                       sorted(map(sorted, set(rows_b) - set(rows_a)))[:1])
+        else:
+            for k_ in rows_a:
+                if rows_a[k_] != rows_b[k_]:
+                    d = 'under %s: add(-d) = %s, sub(d) = %s' % (
+                        sorted(k_), _show(rows_a[k_]), _show(rows_b[k_]))
+                    break
         run.ob('SIB.ops', fa, '%s %s ~ %s (signs flipped)' % (a[0], a[1], b[1]), d is None, fa.loc(),
-               'normal forms agree' if d is None else 'first difference: ' + d)
+               'decision tables agree under d -> -d (%d rows)' % len(rows_a) if d is None else d)
+
+
+def _show(v):
+    if isinstance(v, str):
+        return v
+    if isinstance(v, tuple):
+        return '{%s}' % ', '.join('%s: %s' % (f, p.show()) for f, p in v)
+    return v.show()
 
 
 def check_months(run, F):
